@@ -125,6 +125,40 @@ def findPaths (tlm : String → List Nat) : List (List String) → Nat → List 
           else findPaths tlm cdr pos ((t, pos) :: path) (slop - dist)
         else false
 
+/-! ### the declarative meaning of a (multi-)phrase with slop (the specification `findPaths` is proved
+against in BlugeProofs.C07: `findPhrasePaths_sound_complete`) -/
+
+/-- a placeholder slot of the phrase: `[]` or `[""]` ("don't care", e.g. a removed stop word) -/
+def isHole (car : List String) : Bool := car.isEmpty || car == [""]
+
+/-- the non-placeholder slots with their index in the phrase (the first slot of `slots` has index `k`) -/
+def realSlots (slots : List (List String)) (k : Nat) : List (List String × Nat) :=
+  (slots.zipIdx k).filter (fun e => !isHole e.1)
+
+/-- total displacement of the chosen positions: for consecutive non-placeholder slots with indices
+`i < j` and chosen positions `p`, `q`, the term of slot `j` is expected at `p + (j - i)` (the slots in
+between are placeholders that each occupy one position): `Σ |p + (j - i) - q|` -/
+def displacement : List (Nat × Nat) → Nat
+  | (i, p) :: (j, q) :: rest => (((p + (j - i) : Nat) : Int) - (q : Int)).natAbs + displacement ((j, q) :: rest)
+  | _ => 0
+
+/-- `ch` chooses, slot by slot in phrase order, one occurrence (term, position): the term is one of the
+slot's alternatives and occurs in the field at that position -/
+def Chooses (tlm : String → List Nat) : List (List String × Nat) → List (String × Nat) → Prop
+  | [], [] => True
+  | e :: rs, c :: ch => c.1 ∈ e.1 ∧ c.2 ∈ tlm c.1 ∧ Chooses tlm rs ch
+  | _, _ => False
+
+/-- **a phrase match with slop**: there is a choice of one occurrence (term, position) per
+non-placeholder slot — the term is one of the slot's alternatives and occurs in the field at that
+position —, no occurrence is chosen twice, and the total displacement is at most `slop`.
+`tlm t` = the positions of term `t` in the field. -/
+def PhraseMatch (tlm : String → List Nat) (slots : List (List String)) (slop : Nat) : Prop :=
+  ∃ ch : List (String × Nat),
+    Chooses tlm (realSlots slots 0) ch ∧
+    ch.Nodup ∧
+    displacement (((realSlots slots 0).map (·.2)).zip (ch.map (·.2))) ≤ slop
+
 /-- every non-placeholder position has a term occurring in the document (the phrase searcher's
 `mustSearcher` conjunction), and a phrase path exists -/
 def phraseSat (d : Doc) (f : String) (slop : Nat) (pos : List (List String)) : Bool :=
